@@ -391,6 +391,41 @@ def run(ctx):
                         ctx.case(("mixed-neighbour", op, pair))
                         if got:
                             reqs.append(got)
+    # divmod / % of a bintime duration by a datetime / hightime duration that is no binary fraction of a second, at dividends that are
+    # (within a few ticks) whole multiples of the divisor - of its tick conversion and of its exact value, where a quotient taken
+    # against one and a remainder taken against the other no longer belong together: quotient * divisor + remainder is the dividend
+    # (up to the divisor's conversion error, half a tick per unit of quotient), the remainder has the divisor's sign and is smaller
+    TDc = bt.TimeDelta
+    for kind, scale, units in (("htTd", 10**24, [100 * 10**18, 3 * 10**18, 700 * 10**9, 10**21, 10**24 // 3, 123456789 * 10**9]),
+                               ("dtTd", 10**6, [100, 3, 1000, 333333, 7, 86400 * 10**6 + 1])):
+        for u in units:
+            for sgn in (1, -1):
+                bm = (kind, sgn * u)
+                bconv = outcome(TDc, tv.from_model(*bm))
+                if bconv[0] != "ok" or bconv[1].ticks == 0:
+                    continue
+                B = bconv[1].ticks
+                exact_b = Fraction(sgn * u, scale) * T64
+                for n in (1, 2, 3, 1000, 10000, 1199999999, rng.randint(2, 10**6)):
+                    if abs(n * B) >= (1 << 126):
+                        continue
+                    seams = {n * B, n * B - 1, n * B + 1, int(n * exact_b), int(n * exact_b) + 1, int(n * exact_b) - 1, (n * B + int(n * exact_b)) // 2}
+                    for a in sorted(seams):
+                        for op in ("divmod", "mod"):
+                            got = check_mixed(ctx, op, ("btTd", a), bm, tv)
+                            ctx.case(("mixed-seam", op, a, bm))
+                            if got:
+                                reqs.append(got)
+                        o = outcome(divmod, TDc.from_ticks(a), tv.from_model(*bm))
+                        ctx.count("mixed", "divmod at whole multiples of a decimal divisor")
+                        if o[0] != "ok" or not (isinstance(o[1], tuple) and len(o[1]) == 2 and type(o[1][0]) is int and isinstance(o[1][1], TDc)):
+                            ctx.violation(op="divmod", left=("btTd", a), right=bm, observed=show(o), required="(int, TimeDelta)")
+                            continue
+                        q, r = o[1][0], o[1][1].ticks
+                        resid = abs(a - (q * exact_b + r))
+                        if resid > abs(q) + 1 or not (r == 0 or (r > 0) == (B > 0)) or abs(r) >= abs(B):
+                            ctx.violation(op="divmod", left=("btTd", a), right=bm, observed=f"quotient {q}, remainder {r} ticks: quotient*divisor + remainder misses the dividend by {float(resid):.6g} ticks",
+                                          required="dividend == quotient*divisor + remainder (within the divisor's conversion error), remainder of the divisor's sign and smaller than it")
     # a bintime duration at the ends of the hightime / datetime ranges (+-10^9 days: the first value the other family cannot hold, the
     # last one it can, their neighbours by a tick) against values of those families: the answer is still the exact order
     for days in (10**9, -999999999, -10**9, 999999999):
